@@ -98,9 +98,12 @@ mod selftest {
         let mut ran = 0usize;
         for (name, f) in super::HARNESSES {
             let mut failed = false;
-            for seed in 0u32..1024 {
+            // 1024 fixed patterns + 256 pseudo-random ones drawn from VERIF_SEED
+            let base: u64 = std::env::var("VERIF_SEED").ok().and_then(|v| v.parse().ok()).unwrap_or(0);
+            let mut lcg = base.wrapping_mul(6364136223846793005).wrapping_add(1442695040888963407);
+            for seed in 0u32..1280 {
                 // first value (the case selector of dispatch harnesses) sweeps 0..=255, the others
-                // follow four bit patterns
+                // follow four bit patterns; beyond 1024 every value is pseudo-random
                 let v0 = (seed & 255) as u8;
                 let pat = seed >> 8;
                 let vals: Vec<Vec<u8>> = (0..24)
@@ -112,10 +115,22 @@ mod selftest {
                                 0 => 0,
                                 1 => 1,
                                 2 => (i % 2) as u8,
-                                _ => ((i + 1) % 2) as u8,
+                                3 => ((i + 1) % 2) as u8,
+                                _ => {
+                                    lcg = lcg.wrapping_mul(6364136223846793005).wrapping_add(1442695040888963407);
+                                    (lcg >> 33) as u8
+                                }
                             }
                         };
-                        vec![b, 0, 0, 0, 0, 0, 0, 0]
+                        let mut bytes = vec![b, 0, 0, 0, 0, 0, 0, 0];
+                        if pat >= 4 && i > 0 {
+                            // wide values (u64 cursors etc.) get random high bytes too
+                            for x in bytes.iter_mut().skip(1) {
+                                lcg = lcg.wrapping_mul(6364136223846793005).wrapping_add(1442695040888963407);
+                                *x = (lcg >> 33) as u8;
+                            }
+                        }
+                        bytes
                     })
                     .collect();
                 super::nd::load(vals);
@@ -134,6 +149,7 @@ mod selftest {
                 }
             }
         }
+        println!("SELFTEST-RAN {ran}");
         assert!(ran > 0);
     }
 }
